@@ -140,7 +140,7 @@ impl Property for C05 {
         Some(crate::FuzzSpec { label: "c05-ws", max_len: 700, runs: 20000 })
     }
     fn run(&self, ctx: &mut Ctx) {
-        let cases = ctx.tier.pick(12_000, 300_000);
+        let cases = ctx.tier.pick(60_000, 300_000);
         ctx.run_streams("c05-ws", cases, 700, |ctx, bytes| {
             ctx.mark(&json!({"stream": hex(bytes)}));
             let mut c = Choices::new(bytes);
